@@ -591,7 +591,7 @@ theorem readDoc_flow_line (t : List Char) (pv : PVal) (hl : AllLay t)
     (hs : ∃ cs, t = '[' :: cs ∨ t = '{' :: cs)
     (hread : flowNode (t.length + 2) t = some (pv, [])) : readDoc (t ++ ['\n']) = some pv := by
   obtain ⟨hg, hr⟩ := flow_line_root t pv hl hs hread
-  have := readDoc_of_lines [⟨0, t⟩] pv hg (by simp) hr
+  have := readDoc_of_lines [⟨0, t⟩] pv hg (FirstLine.ofGood (bracketLine_good hs hl) _) hr
   simpa [renderLines, spaces] using this
 
 /-- … after the prologue of `yaml_12` -/
@@ -601,7 +601,7 @@ theorem readDoc_flow_line_pro (o : Opts) (t : List Char) (pv : PVal) (hl : AllLa
   obtain ⟨hg, hr⟩ := flow_line_root t pv hl hs hread
   unfold prologue
   cases o.yaml12
-  · have := readDoc_of_lines [⟨0, t⟩] pv hg (by simp) hr
+  · have := readDoc_of_lines [⟨0, t⟩] pv hg (FirstLine.ofGood (bracketLine_good hs hl) _) hr
     simpa [renderLines, spaces] using this
   · have := readDoc_of_lines_pro [⟨0, t⟩] pv hg hr
     simpa [renderLines, spaces] using this
